@@ -268,6 +268,8 @@ def run_fault(root, failing, shape_name, res, case, variant='plain'):
   before = canon.canon_cfg(root)
   vfx.reset()
   vfx.FAIL['exc'] = make
+  if variant.startswith('mutating'):
+    vfx.FAIL['mutate'] = True
   escaped = None
   try:
     fdl.build(root)
@@ -309,7 +311,8 @@ def run_fault(root, failing, shape_name, res, case, variant='plain'):
   tok = root_token(s_esc[len(s_orig):])
   candidates = render_paths(root, failing)
   must = diagnosable(original) and variant in (
-      'plain', 'bad_repr_exception', 'no_qualname', 'reraised') and shape_name not in (
+      'plain', 'bad_repr_exception', 'no_qualname', 'reraised',
+      'mutating_empty', 'mutating_nonempty', 'mutating_shared') and shape_name not in (
           'strict_new', 'immutable')
   if tok is None:
     if must:
@@ -385,7 +388,7 @@ def has_dep_or_dependant(shape, j):
 LAST_ESCAPED = [None]
 EVENTS = ['fail_reraise_previous', 'fail_plain', 'fail_base', 'fail_nosub', 'fail_dup_a', 'fail_dup_b',
           'fail_badrepr_exc', 'fail_badrepr_base', 'ok', 'nested',
-          'fail_stopiter']
+          'fail_stopiter', 'unconfig_swallow_nested']
 
 
 def do_event(ev, res, case):
@@ -403,6 +406,24 @@ def do_event(ev, res, case):
                   f'{case}: fdl.build from inside a callable under '
                   f'construction was not rejected', case)
     return False
+  if ev == 'unconfig_swallow_nested':
+    vfx.reset()
+    cfg = fdl.Config(N.node, x=fdl.Config(N.unconfig_swallower, x=1),
+                     y=fdl.Config(N.unconfig_swallower, x=2))
+    try:
+      out = fdl.build(cfg)
+    except Exception as e:  # pylint: disable=broad-except
+      res.violation('C05/swallowed-inner-failure-breaks-build',
+                    f'{case}: {e!r}', case)
+      return False
+    res.transitions += 1
+    for r in (out.bound['x'], out.bound['y']):
+      if r.bound.get('nested') != 'rejected':
+        res.violation(
+            'C05/nested-build-accepted/after-swallowed-auto_unconfig-failure',
+            f'{case}: {r.bound}', case)
+        return False
+    return check_healthy(res, case, 'unconfig_swallow_nested')
   if ev == 'fail_reraise_previous':
     prev = LAST_ESCAPED[0]
     if prev is None or not isinstance(prev, Exception):
@@ -452,7 +473,8 @@ def run_unit(unit, tier, seed):
   if unit[0] == 'variants':
     for shape_name in b['shapes']:
       for variant in ('bad_repr_exception', 'bad_repr_baseexception',
-                      'no_qualname', 'tagged_unset'):
+                      'no_qualname', 'tagged_unset', 'mutating_empty',
+                      'mutating_nonempty', 'mutating_shared'):
         res.states += 1
         res.evals += 1
         res.nontrivial += 1
@@ -498,6 +520,15 @@ def variant_root(variant):
     failing = fdl.Config(N.failer, x=N.BadRepr(EBase), y=1)
   elif variant == 'no_qualname':
     failing = fdl.Config(N.failer_instance, x=1)
+  elif variant == 'mutating_empty':
+    failing = fdl.Config(N.failer, x=[], y={})
+  elif variant == 'mutating_nonempty':
+    failing = fdl.Config(N.failer, x=[1], y={'k': [2]})
+  elif variant == 'mutating_shared':
+    shared = []
+    failing = fdl.Config(N.failer, x=shared, y=__import__(
+        'collections').defaultdict(list))
+    return {'k': [fdl.Config(N.node_b, x=shared), failing]}, failing
   else:
     failing = fdl.Config(N.failer, x=1)
     fdl.add_tag(failing, 'y', N.TagA)
